@@ -151,3 +151,438 @@ def make(base, name, **kw):
     cls.name = name
     REG[name] = cls
     return cls
+
+
+# =====================================================================================================
+# helpers shared by the value-level harnesses
+# =====================================================================================================
+def ref_trim(ex, bs):
+    """reference trimming (XML white space as the tokenizer defines it) on symbolic bytes; forks per position"""
+    s, e = 0, len(bs)
+    while s < e and ex.decide(is_ws(bs[s])):
+        s += 1
+    while e > s and ex.decide(is_ws(bs[e - 1])):
+        e -= 1
+    return bs[s:e]
+
+
+def entities_wellformed(ex, raw):
+    """independent reading of XML 1.0 references: every & starts &lt; &gt; &amp; &apos; &quot; &#[0-9]+; or &#x[0-9a-fA-F]+;"""
+    from models import is_digit, is_hexdigit
+    lits = [b'&lt;', b'&gt;', b'&amp;', b'&apos;', b'&quot;']
+    i = 0
+    n = len(raw)
+    while i < n:
+        if not ex.decide(raw[i] == 0x26):
+            i += 1
+            continue
+        matched = False
+        for lit in lits:
+            if i + len(lit) <= n and ex.decide(bytes_eq(raw[i:i + len(lit)], [bv(c, 8) for c in lit])):
+                i += len(lit)
+                matched = True
+                break
+        if matched:
+            continue
+        if i + 1 < n and ex.decide(raw[i + 1] == 0x23):
+            j = i + 2
+            hexa = False
+            if j < n and ex.decide(raw[j] == 0x78):
+                hexa = True
+                j += 1
+            k = j
+            while k < n and ex.decide(is_hexdigit(raw[k]) if hexa else is_digit(raw[k])):
+                k += 1
+            if k > j and k < n and ex.decide(raw[k] == 0x3b):
+                i = k + 1
+                continue
+        return False
+    return True
+
+
+def cdata_equal(a, b, float_eq_rust=False):
+    """z3 Bool / python bool: two CharacterData values are identical (float_eq_rust: the type's own `==`, i.e. IEEE equality)"""
+    if a.variant != b.variant:
+        return False
+    if a.variant == 'String':
+        return bytes_eq(list(a.fields[0].b), list(b.fields[0].b))
+    x, y = a.fields[0], b.fields[0]
+    if isinstance(x, F):
+        if float_eq_rust:
+            return z3.simplify(z3.fpEQ(x.e, y.e))
+        return z3.simplify(x.e == y.e)     # SMT equality of the float terms (same bits)
+    return z3.simplify(x.e == y.e)
+
+
+def warnings_of(p):
+    return p.fields[P_WARNINGS].items
+
+
+class UF:
+    """uninterpreted functions over byte strings of a concrete length: any deterministic library function"""
+    cache = {}
+
+    @classmethod
+    def get(cls, name, n, rng):
+        k = (name, n)
+        if k not in cls.cache:
+            cls.cache[k] = z3.Function(f'{name}_{n}', *([z3.BitVecSort(8)] * n + [rng]))
+        return cls.cache[k]
+
+    @classmethod
+    def app(cls, name, bs, rng, default):
+        if not bs:
+            return z3.Const(f'{name}_0', rng)
+        return cls.get(name, len(bs), rng)(*bs)
+
+
+def uf_validator(ex, args):
+    """check_fn of a Pattern spec: an arbitrary deterministic predicate on the byte string"""
+    bs = as_bytes_list(ex, args[0])
+    return UF.app('pattern_ok', bs, z3.BoolSort(), None)
+
+
+def install_enum_models(models):
+    """EnumItem text <-> item: any deterministic lookup (from_bytes) that inverts to_str; justified by the C18 harnesses"""
+    def from_bytes(ex, c, a):
+        bs = as_bytes_list(ex, a[0])
+        okf = UF.app('enumitem_known', bs, z3.BoolSort(), None)
+        if ex.decide(okf):
+            return ok(I(UF.app('enumitem_of', bs, z3.BitVecSort(16), None), False, 'u16'))
+        return err(Opaque('ParseEnumItemError'))
+    models.add(r'^autosar_data_specification::EnumItem::from_bytes$', from_bytes, prefer=True)
+    models.rx.insert(0, models.rx.pop())
+
+
+# =====================================================================================================
+# C08: strict and lenient validation agree on values; strict has no holes (value level)
+# =====================================================================================================
+@register
+class C08Value(ParserHarness):
+    kind = 'string'       # string | pattern | uint | float | enum
+    preserve = False
+    max_length = None
+    native = ('data', 'n_c08_value')
+    ascii_only = True
+
+    def make_spec(self, ex):
+        if self.kind == 'string':
+            return spec_string(self.preserve, self.max_length)
+        if self.kind == 'pattern':
+            return spec_pattern(uf_validator, self.max_length)
+        if self.kind == 'uint':
+            return spec_uint()
+        if self.kind == 'float':
+            return spec_float()
+        if self.kind == 'enum':
+            # symbolic 2-row table: arbitrary items and version masks; arbitrary file version bit
+            self.rows = [(I(z3.BitVec(f'row{i}_item', 16), False, 'u16'), I(z3.BitVec(f'row{i}_mask', 32), False, 'u32')) for i in range(2)]
+            return spec_enum(self.rows)
+        raise Unsupported(self.kind)
+
+    def run(self, ex):
+        f_parse = find_fn(ex.prog, '::parse_character_data', 'parser.rs')
+        if self.kind == 'enum':
+            install_enum_models(ex.models)
+        inp = self.inputs(ex)
+        spec = self.make_spec(ex)
+        ps = self.parser(True)
+        pl = self.parser(False)
+        if self.kind == 'enum':
+            fv = z3.BitVec('fileversion', 32)
+            ex.assume(z3.And(fv != 0, (fv & (fv - 1)) == 0, z3.ULT(fv, 1 << 21)))
+            ps.fields[P_FILEVERSION] = I(fv, False, 'u32')
+            pl.fields[P_FILEVERSION] = I(fv, False, 'u32')
+            self.fv = fv
+        rs = ex.call(f_parse, [Ref(Cell(ps)), inp, Ref(Cell(spec))])
+        rl = ex.call(f_parse, [Ref(Cell(pl)), inp, Ref(Cell(spec))])
+        return rs, rl, ps, pl, spec
+
+    def replay_vals(self, m):
+        kindno = ['string', 'pattern', 'uint', 'float', 'enum'].index(self.kind)
+        return ([le_bytes(self.n, 8)] + [[x] for x in model_bytes(m, self.bs)] + [[kindno], [1 if self.preserve else 0],
+                le_bytes(self.max_length if self.max_length is not None else 0xffffffffffffffff, 8)])
+
+    def prop(self, out, ex):
+        if out[0] == 'panic':
+            self.cover('panic')
+            return
+        rs, rl, ps, pl, spec = out[1]
+        wl = warnings_of(pl)
+        ws = warnings_of(ps)
+        self.require(ex, len(ws) == 0, 'strict mode recorded a warning instead of failing')
+        if rs.variant == 'Ok':
+            self.cover('strict accepts')
+            self.require(ex, rl.variant == 'Ok', 'strict loading accepts a value that lenient loading rejects')
+            self.require(ex, len(wl) == 0, 'lenient loading warns about a value that strict loading accepts')
+            if rl.variant == 'Ok':
+                self.require(ex, cdata_equal(rs.fields[0], rl.fields[0]), 'strict and lenient loading produce different values')
+            self.no_holes(ex, rs.fields[0], spec)
+        else:
+            self.cover('strict rejects')
+            sl, ssrc = err_parts(rs.fields[0])
+            self.require(ex, self.line_ok(sl), 'strict error names a line outside the document')
+            if rl.variant == 'Ok':
+                self.cover('lenient accepts with warning')
+                self.require(ex, len(wl) > 0, 'lenient loading silently accepts a value that strict loading rejects')
+                if wl:
+                    wline, wsrc = err_parts(wl[0])
+                    self.require(ex, wsrc.variant == ssrc.variant, f'strict error ({ssrc.variant}) is not the first lenient warning ({wsrc.variant})')
+                    self.require(ex, z3.simplify(wline.e == sl.e), 'strict error and first lenient warning name different lines')
+            else:
+                self.cover('both reject')
+                lline, lsrc = err_parts(rl.fields[0])
+                if not wl:
+                    self.require(ex, lsrc.variant == ssrc.variant, f'strict error ({ssrc.variant}) differs from the lenient hard error ({lsrc.variant})')
+                else:
+                    wline, wsrc = err_parts(wl[0])
+                    self.require(ex, wsrc.variant == ssrc.variant, f'strict error ({ssrc.variant}) is not the first lenient warning ({wsrc.variant})')
+        for w in wl:
+            wline, _ = err_parts(w)
+            self.require(ex, self.line_ok(wline), 'lenient warning names a line outside the document')
+
+    def no_holes(self, ex, v, spec):
+        """strict accepted: the documented constraint of the value type holds (independent reading of the input)"""
+        trimmed = ref_trim(ex, list(self.bs))
+        if self.kind == 'string':
+            raw = list(self.bs) if self.preserve else trimmed
+            if self.max_length is not None:
+                self.require(ex, len(raw) <= self.max_length, 'strict loading accepts a string longer than max_length')
+            self.require(ex, entities_wellformed(ex, raw), 'strict loading accepts a malformed entity / character reference')
+        elif self.kind == 'pattern':
+            if self.max_length is not None:
+                self.require(ex, len(trimmed) <= self.max_length, 'strict loading accepts a pattern value longer than max_length')
+            self.require(ex, UF.app('pattern_ok', trimmed, z3.BoolSort(), None), 'strict loading accepts a value its validator rejects')
+            self.require(ex, bytes_eq(cdata_str_bytes(v), trimmed), 'pattern value is not the trimmed text')
+        elif self.kind == 'uint':
+            # digits only (an optional leading + is what str::parse accepts) and the value is the decimal reading
+            t = trimmed
+            if t and ex.decide(t[0] == 0x2b):
+                t = t[1:]
+            self.require(ex, len(t) > 0, 'strict loading accepts an empty number')
+            if t:
+                from models import is_digit
+                self.require(ex, zand(*[is_digit(b) for b in t]), 'strict loading accepts a non-numeric unsigned integer')
+                acc = bv(0, 128)
+                for b in t:
+                    acc = acc * 10 + z3.ZeroExt(120, b - 0x30)
+                self.require(ex, z3.simplify(z3.ZeroExt(64, v.fields[0].e) == acc), 'unsigned integer value differs from the decimal reading of the text')
+        elif self.kind == 'enum':
+            item = v.fields[0].e
+            inrow = [zand(item == r[0].e, (r[1].e & self.fv) != 0) for r in self.rows]
+            # find() returns the FIRST row with that item: row1 only counts when row0 is a different item
+            first = zor(inrow[0], zand(self.rows[0][0].e != item, inrow[1]))
+            self.require(ex, first, 'strict loading accepts an enum item that is not listed for this element or not available in the file version')
+
+
+# =====================================================================================================
+# C02: parser value kernels are total: no panic on any byte string; error / warning lines within the document
+# =====================================================================================================
+@register
+class C02ValueTotal(C08Value):
+    ascii_only = False
+    native = ('data', 'n_c02_value_total')
+
+    def run(self, ex):
+        f_parse = find_fn(ex.prog, '::parse_character_data', 'parser.rs')
+        if self.kind == 'enum':
+            install_enum_models(ex.models)
+        inp = self.inputs(ex)
+        spec = self.make_spec(ex)
+        p = self.parser(self.strict)
+        if self.kind == 'enum':
+            fv = z3.BitVec('fileversion', 32)
+            ex.assume(z3.And(fv != 0, (fv & (fv - 1)) == 0, z3.ULT(fv, 1 << 21)))
+            p.fields[P_FILEVERSION] = I(fv, False, 'u32')
+        r = ex.call(f_parse, [Ref(Cell(p)), inp, Ref(Cell(spec))])
+        return r, p
+
+    def replay_vals(self, m):
+        kindno = ['string', 'pattern', 'uint', 'float', 'enum'].index(self.kind)
+        return ([le_bytes(self.n, 8)] + [[x] for x in model_bytes(m, self.bs)] + [[kindno], [1 if self.preserve else 0],
+                le_bytes(self.max_length if self.max_length is not None else 0xffffffffffffffff, 8), [1 if self.strict else 0]])
+
+    def prop(self, out, ex):
+        if out[0] == 'panic':
+            self.cover('panic')
+            self.require(ex, False, 'panic while loading a value: ' + out[1])
+            return
+        r, p = out[1]
+        if r.variant == 'Ok':
+            self.cover('accepted')
+        else:
+            self.cover('rejected')
+            l, _ = err_parts(r.fields[0])
+            self.require(ex, self.line_ok(l), 'error names a line outside the document')
+        for w in warnings_of(p):
+            wl, _ = err_parts(w)
+            self.require(ex, self.line_ok(wl), 'warning names a line outside the document')
+
+
+# =====================================================================================================
+# spec tables read from the repository source (names only): used by to_str models
+# =====================================================================================================
+_TABLES = {}
+
+
+def string_table(fname):
+    import os
+    import re
+    if fname not in _TABLES:
+        src = open(os.path.join(REPO, 'autosar-data-specification', 'src', fname), encoding='utf-8').read()
+        m = re.search(r'const STRING_TABLE: \[&\'static str; (\d+)\] = \[(.*?)\];', src, re.S)
+        items = re.findall(r'"((?:[^"\\]|\\.)*)"', m.group(2))
+        if len(items) != int(m.group(1)):
+            raise Unsupported(f'{fname}: STRING_TABLE has {len(items)} entries, declared {m.group(1)}')
+        _TABLES[fname] = [x.encode() for x in items]
+    return _TABLES[fname]
+
+
+def install_to_str_models(models):
+    from mirexec import str_slice
+
+    def mk(fname):
+        def to_str(ex, c, a):
+            v = ex.deref(a[0]) if isinstance(a[0], (Ref, ElemRef)) else a[0]
+            idx = ex.concretize(v, limit=16)
+            tab = string_table(fname)
+            if idx >= len(tab):
+                raise Unsupported('item index outside the table')
+            return str_slice(tab[idx])
+        return to_str
+    models.add(r'^autosar_data_specification::EnumItem::to_str$', mk('enumitem.rs'), prefer=True)
+    models.rx.insert(0, models.rx.pop())
+    models.add(r'^autosar_data_specification::AttributeName::to_str$', mk('attributename.rs'), prefer=True)
+    models.rx.insert(0, models.rx.pop())
+
+
+# =====================================================================================================
+# C14: the value ordering used by sort is a total order consistent with equality
+# =====================================================================================================
+@register
+class C14ValueOrder(E2Harness):
+    """a, b, c: CharacterData values of the given shapes: 'e' enum item (one of the first 3 items), 's<k>' string of k bytes,
+    'u' any u64, 'f' any f64 bit pattern"""
+    shapes = ['s1', 's1', 's1']
+    native = ('data', 'n_c14_value_order')
+    with_attr = False
+
+    def mkval(self, ex, tag, shape):
+        if shape == 'e':
+            it = z3.BitVec(f'{tag}_item', 16)
+            ex.assume(z3.ULT(it, 3))
+            self.invars.append(('e', [it]))
+            return Agg('CharacterData', 'Enum', [I(it, False, 'u16')])
+        if shape.startswith('s'):
+            k = int(shape[1:])
+            bs = sym_bytes(f'{tag}_b', k)
+            for b in bs:
+                ex.assume(z3.ULT(b, 0x80))
+            self.invars.append(('s', bs))
+            return Agg('CharacterData', 'String', [Str(bs)])
+        if shape == 'u':
+            v = z3.BitVec(f'{tag}_u', 64)
+            self.invars.append(('u', [v]))
+            return Agg('CharacterData', 'UnsignedInteger', [I(v, False, 'u64')])
+        if shape == 'f':
+            bits = z3.BitVec(f'{tag}_fbits', 64)
+            self.invars.append(('f', [bits]))
+            return Agg('CharacterData', 'Float', [F(z3.fpBVToFP(bits, z3.Float64()))])
+        raise Unsupported(shape)
+
+    def run(self, ex):
+        install_to_str_models(ex.models)
+        f_cmp = find_fn(ex.prog, '::cmp', 'chardata.rs')
+        self.invars = []
+        vals = [self.mkval(ex, t, s) for t, s in zip('abc', self.shapes)]
+        if self.with_attr:
+            f_acmp = find_fn(ex.prog, '::cmp', 'lib.rs:563')
+            names = []
+            for t in 'abc':
+                nm = z3.BitVec(f'{t}_attr', 16)
+                ex.assume(z3.ULT(nm, 3))
+                names.append(nm)
+                self.invars.append(('n', [nm]))
+            objs = [Agg('Attribute', None, [I(n_, False, 'u16'), v]) for n_, v in zip(names, vals)]
+            cmpf = lambda x, y: ex.call(f_acmp, [Ref(Cell(x)), Ref(Cell(y))])
+        else:
+            objs = vals
+            cmpf = lambda x, y: ex.call(f_cmp, [Ref(Cell(x)), Ref(Cell(y))])
+        a, b, c = objs
+        res = dict(ab=cmpf(a, b).variant, ba=cmpf(b, a).variant, bc=cmpf(b, c).variant, ac=cmpf(a, c).variant, aa=cmpf(a, a).variant)
+        return res, vals, (names if self.with_attr else None)
+
+    def replay_vals(self, m):
+        out = [[1 if self.with_attr else 0]]
+        for kind, terms in self.invars:
+            vs = model_bytes(m, terms) if kind in ('s',) else None
+            if kind == 'n':
+                continue
+            if kind == 'e':
+                out += [[0], le_bytes(m.eval(terms[0], model_completion=True).as_long(), 2)]
+            elif kind == 's':
+                out += [[1], le_bytes(len(terms), 8)] + [[x] for x in vs]
+            elif kind == 'u':
+                out += [[2], le_bytes(m.eval(terms[0], model_completion=True).as_long(), 8)]
+            elif kind == 'f':
+                out += [[3], le_bytes(m.eval(terms[0], model_completion=True).as_long(), 8)]
+        for kind, terms in self.invars:
+            if kind == 'n':
+                out += [le_bytes(m.eval(terms[0], model_completion=True).as_long(), 2)]
+        return out
+
+    def describe(self, m):
+        parts = []
+        for kind, terms in self.invars:
+            if kind == 's':
+                parts.append(repr(bytes(model_bytes(m, terms))))
+            elif kind == 'f':
+                import struct
+                bits = m.eval(terms[0], model_completion=True).as_long()
+                parts.append('f64:' + repr(struct.unpack('<d', struct.pack('<Q', bits))[0]))
+            else:
+                parts.append(f'{kind}:{m.eval(terms[0], model_completion=True).as_long()}')
+        return ', '.join(parts)
+
+    def nan_involved(self, vals):
+        fl = [v.fields[0].e for v in vals if v.variant == 'Float']
+        if not fl:
+            return False
+        return zor(*[z3.fpIsNaN(x) for x in fl])
+
+    def prop(self, out, ex):
+        if out[0] == 'panic':
+            self.require(ex, False, 'comparison panicked: ' + out[1])
+            return
+        r, vals, names = out[1]
+        self.cover('compared')
+        rev = {'Less': 'Greater', 'Greater': 'Less', 'Equal': 'Equal'}
+        le = lambda o: o in ('Less', 'Equal')
+        okv = True
+        msg = ''
+        if r['aa'] != 'Equal':
+            okv, msg = False, 'cmp(a, a) != Equal'
+        elif r['ba'] != rev[r['ab']]:
+            okv, msg = False, f"not antisymmetric: cmp(a,b)={r['ab']} but cmp(b,a)={r['ba']}"
+        elif le(r['ab']) and le(r['bc']) and not le(r['ac']):
+            okv, msg = False, f"not transitive: a<=b ({r['ab']}), b<=c ({r['bc']}) but cmp(a,c)={r['ac']}"
+        elif le(r['ab']) and le(r['bc']) and (r['ab'] == 'Less' or r['bc'] == 'Less') and r['ac'] != 'Less':
+            okv, msg = False, f"not transitive: cmp(a,b)={r['ab']}, cmp(b,c)={r['bc']} but cmp(a,c)={r['ac']}"
+        if okv:
+            # Equal <=> identical values (the sort is a canonicalisation only if ties are real ties)
+            same = cdata_equal(vals[0], vals[1], float_eq_rust=True)
+            if names is not None:
+                same = zand(same, names[0] == names[1])
+            if r['ab'] == 'Equal':
+                cond = same
+                msg = 'cmp(a,b) == Equal for different values'
+            else:
+                cond = znot(same)
+                msg = 'cmp(a,b) != Equal for identical values'
+            nan = self.nan_involved(vals)
+            self.require(ex, zor(nan, cond), msg)
+            self.require(ex, zor(znot(nan), cond), msg + ' (NaN)', known_key='C14-float-nan-compares-equal')
+            return
+        nan = self.nan_involved(vals)
+        self.require(ex, zb(nan), msg)        # without NaN this must not happen
+        self.require(ex, znot(nan), msg + ' (NaN)', known_key='C14-float-nan-compares-equal')
